@@ -130,9 +130,11 @@ open C01RWitness C01CWitness
 set_option maxRecDepth 100000 in
 /-- every hypothesis of `C02_backends_agree_reachable` holds after `hist3` of Props/C01C (15 calls; the
     tree has a link `/l → /a/f`) for a group-C call (`all_paths "/"`, the link among the results), a
-    group-B call (`move_p` of the directory `/a/b`) and the recursive `chmod` -/
+    group-B call (`move_p` of the directory `/a/b`), the recursive `chmod`, and `all_files "/"` / `files "/"`
+    (the link to a file lies below: formerly outside `classOf = "-"` and outside `D2`, finding S7) -/
 theorem C02R_hist3_hyps : (∀ o ∈ hist3, NoFollowOp o) ∧
-    (∀ op ∈ [Op.allPaths (S "/"), Op.moveP (S "/a/b") (S "/c"), Op.chmod (S "/a") 0o700],
+    (∀ op ∈ [Op.allPaths (S "/"), Op.moveP (S "/a/b") (S "/c"), Op.chmod (S "/a") 0o700,
+        Op.allFiles (S "/"), Op.files (S "/")],
       Refined' op ∧ classOf (run env0 Memfs.init hist3) env0 op = "-" ∧
       DepthDom' (run env0 Memfs.init hist3) op ∧ D2 env0 (absS (run env0 Memfs.init hist3)) op) := by
   decide +kernel
@@ -155,6 +157,23 @@ example : OutcomeAgree (Memfs.step env0 (run env0 Memfs.init hist3) (.allPaths (
   exact C02_backends_agree_reachable env0 env0 hist3 _ _ t' C02R_hist3_hyps.1 hR hc hd hD hs
     (fun h => by cases h)
 
+set_option maxRecDepth 100000 in
+/-- `all_files "/"` after `hist3`: the reference lists the two regular files, not the link `/l → /a/f` … -/
+theorem C02R_hist3_spec_allFiles :
+    isOkPaths [[S "a", S "b", S "g"], [S "a", S "f"]]
+      (specStep env0 (absS (run env0 Memfs.init hist3)) (.allFiles (S "/"))) = true := by
+  decide +kernel
+
+/-- … and so do both backends (S7 / `listing_includes_links` repaired: no hypothesis about links) -/
+example : OutcomeAgree (Memfs.step env0 (run env0 Memfs.init hist3) (.allFiles (S "/"))).1
+      (Stdfs.step env0 (absS (run env0 Memfs.init hist3)) (.allFiles (S "/"))).1 ∧
+    Lemmas.RefineA.TEquiv (absS (Memfs.step env0 (run env0 Memfs.init hist3) (.allFiles (S "/"))).2)
+      (Stdfs.step env0 (absS (run env0 Memfs.init hist3)) (.allFiles (S "/"))).2 := by
+  obtain ⟨t', hs⟩ := isOkPaths_elim C02R_hist3_spec_allFiles
+  obtain ⟨hR, hc, hd, hD⟩ := C02R_hist3_hyps.2 (.allFiles (S "/")) (by simp)
+  exact C02_backends_agree_reachable env0 env0 hist3 _ _ t' C02R_hist3_hyps.1 hR hc hd hD hs
+    (fun h => by cases h)
+
 -- OPEN (not proved):
 --   * a TRACE-level statement for the two backends run side by side (Memfs from `Memfs.init`, the Stdfs
 --     model from `absS Memfs.init`, comparing after every call without re-abstracting): it needs (a) the
@@ -165,7 +184,7 @@ example : OutcomeAgree (Memfs.step env0 (run env0 Memfs.init hist3) (.allPaths (
 --     non-link target with an accurate `toDir` flag; link texts resolve back to their target key; the cwd
 --     is an existing directory) is NOT an invariant of reachable Memfs states (dangling links, links to
 --     links, a removed cwd are reachable — findings S9, S10 and the link classes of C02), and its
---     operation part lists the Stdfs findings S6–S8, S11–S14, S16.
+--     operation part lists the Stdfs findings S6, S8, S11–S14, S16 (S7 is repaired).
 --   * symbolic `chmod_b` is `Refined'` (Memfs side, Props/C01C) but outside the Stdfs proof: `D2` is false
 --     for it (OPEN item of Props/C02), so the theorems above say nothing about it.
 
